@@ -272,6 +272,13 @@ if __name__ == '__main__':
                 'consumer http server, alternative host name, either side stopping first (plus optional-TLS consumer and a '
                 'second stop order in the thorough tier); start-up, subscribe, renew, status, get, one operation, one '
                 'periodic report, unsubscribe / SubscriptionEnd; control run without TLS must record plaintext')
+    from native import replays_C19
+
+    def redirect():
+        r = replays_C19.redirect({})
+        return 1, ([{'key': r['witness_key'], 'detail': r['detail'], 'inputs': {}}] if r.get('violates') else [])
+    c.run('C19.redirect_to_plain_http_not_followed', 'B', redirect, replay_fn='C19:redirect',
+          bound='one 307 redirect from a TLS endpoint to a plain http server, real SoapClientAsync with a TLS client context')
     c.run('C19.urlparse_scheme', 'B', urlparse_scheme,
           bound='4000 (quick) / 20000 (thorough) random urls per scheme, tails of up to 12 characters over a 17-character alphabet')
     c.emit()
